@@ -64,6 +64,43 @@ def main() -> None:
             k2, ns2 = guarded(again)
             if k2 == "raise" or ns2 != want_ns:
                 net.fail("ns-reserialise", "re-serialising what was read does not reproduce the declarations", inp, ns2, want_ns)
+    # rdflib API: bindings of the source graph are delivered with the same prefix, also for namespaces rdflib pre-binds
+    import rdflib
+    from pyjelly.serialize.streams import SerializerOptions
+    from pyjelly.options import StreamParameters
+    RB = [("ex", "http://ex.org/ns#"), ("sdo", "https://schema.org/"), ("dct", "http://purl.org/dc/terms/"), ("mine", "http://mine.example/"), ("", "http://www.w3.org/2004/02/skos/core#")]
+    for it in range(20 if net.quick else 200):
+        binds = rng.sample(RB, rng.randrange(1, 4))
+        quads = rng.random() < 0.5
+        inp = {"api": "rdflib", "bindings": binds, "dataset": quads}
+        net.case(inp)
+        def run():
+            src = rdflib.Dataset() if quads else rdflib.Graph()
+            for p_, i_ in binds:
+                src.bind(p_, rdflib.Namespace(i_), override=True, replace=True)
+            tgt_graph = src.default_context if quads else src
+            tgt_graph.add((rdflib.URIRef("http://ex.org/s"), rdflib.URIRef("http://ex.org/p"), rdflib.Literal("o")))
+            opts = SerializerOptions(logical_type=2 if quads else 1, params=StreamParameters(namespace_declarations=True))
+            data = src.serialize(format="jelly", options=opts, encoding="jelly")
+            out = {}
+            dst = rdflib.Dataset() if quads else rdflib.Graph()
+            list(dst.namespaces())                      # the namespace manager (with rdflib's stock bindings) exists before the parse
+            dst.parse(data=data, format="jelly")
+            out["plugin"] = {p_: str(n_) for p_, n_ in dst.namespaces()}
+            from pyjelly.integrations.rdflib.parse import parse_jelly_to_graph
+            g2 = parse_jelly_to_graph(io.BytesIO(data))
+            out["to_graph"] = {p_: str(n_) for p_, n_ in g2.namespaces()}
+            return out
+        kind, got = guarded(run)
+        if kind == "raise":
+            net.fail("ns-rdflib", f"rdflib round trip with declarations raised: {got}", inp)
+            continue
+        for api, m in got.items():
+            missing = [(p_, i_) for p_, i_ in binds if m.get(p_) != i_]
+            if missing:
+                net.fail("ns-rdflib", f"rdflib ({api}): bindings {missing} of the source are not delivered as the same prefix with the same IRI", inp, {k: m.get(k) for k, _ in binds})
+                break
     net.finish("bounded", "0..4 bindings from 7 (empty prefix, separator-free, non-ASCII, empty IRI) x 1..4 statements x 3 physical types x prefix table {0,1,2,4,8} x sink/generator input",
                "each case = (config, bindings, statements); non-trivial = at least one binding")
-main()
+if __name__ == "__main__":
+    main()
